@@ -287,7 +287,8 @@ type cSession struct {
 	tags     map[string]bool
 	skip     string
 	nscratch int
-	stop     bool // a resolved entity turned out to be locked for ever: the session ends there
+	stop     bool                  // a resolved entity turned out to be locked for ever: the session ends there
+	staged   [2]map[entity.Id]bool // bugs on which this harness left an operation uncommitted (histogram only, the verdict never reads it)
 }
 
 func (s *cSession) fail(format string, a ...interface{}) {
@@ -820,6 +821,7 @@ func (s *cSession) commitBug(r int, b *cache.BugCache) {
 		ev.Out, ev.Err = "fail", err.Error()
 	} else {
 		ev.Out = "done"
+		delete(s.staged[r], b.Id())
 	}
 	s.gitObserve(&ev)
 	ev.NewIdx = s.newCommits(before)
@@ -953,6 +955,7 @@ func (s *cSession) do(a cAct) {
 			s.commitBug(r, b)
 		} else if b.NeedCommit() {
 			s.tags["staged-edit"] = true
+			s.staged[r][id] = true
 		}
 	case "commit":
 		// commits every bug that has staged operations, in id order
@@ -1047,6 +1050,11 @@ func (s *cSession) do(a cAct) {
 				kind = "identity"
 			}
 			s.tags["merge-"+kind+"-"+m.Status] = true
+			if !m.Ident && m.Status == "updated" && s.staged[r][mr.Id] {
+				// the case the property singles out: an update arrives for a bug that is loaded with uncommitted operations
+				s.tags["pull-updates-bug-with-staged-operations"] = true
+				delete(s.staged[r], mr.Id)
+			}
 			ev.Merges = append(ev.Merges, m)
 		}
 		s.gitObserve(&ev)
@@ -1074,6 +1082,7 @@ func (s *cSession) do(a cAct) {
 		} else {
 			ev.Out = "done"
 			s.tags["remove"] = true
+			delete(s.staged[r], id)
 		}
 		s.push(ev)
 	case "resolve":
@@ -1113,6 +1122,7 @@ func (s *cSession) do(a cAct) {
 			return
 		}
 		ev.Out = "done"
+		s.staged[r] = map[entity.Id]bool{}
 		s.push(ev)
 	default:
 		return
@@ -1127,6 +1137,7 @@ func runC11(in cInput) (*cSession, string) {
 		in.Cap = 2
 	}
 	s := &cSession{in: in, g: newGraph(), tags: map[string]bool{}, entOf: map[string]int{}, ops: map[string]*cOp{}}
+	s.staged = [2]map[entity.Id]bool{{}, {}}
 	defer s.cleanup()
 	s.setup()
 	for _, a := range in.Actions {
@@ -1152,6 +1163,7 @@ func runC11Stress(in cInput) string {
 		nbugs = 12
 	}
 	s := &cSession{in: cInput{Cap: 1000}, g: newGraph(), tags: map[string]bool{}, entOf: map[string]int{}, ops: map[string]*cOp{}}
+	s.staged = [2]map[entity.Id]bool{{}, {}}
 	defer s.cleanup()
 	s.setup()
 	u := s.users[0]
@@ -1216,10 +1228,45 @@ func genC11(r *Rand, maxActions int) cInput {
 		in.Actions = append(in.Actions, cAct{K: "push", R: a, Rot: r.Intn(5)}, cAct{K: "pull", R: 1 - a, Rot: r.Intn(5)})
 	}
 	editKinds := []string{"comment", "comment", "title", "status", "label", "label", "editcomment", "meta"}
+	edit := func(rep, e int, stage bool) cAct {
+		return cAct{K: editKinds[r.Intn(len(editKinds))], R: rep, E: e, W: words(1, 3), L: r.Intn(4), V: r.Intn(3), Rot: r.Intn(5), Stage: stage}
+	}
+	// pullOverStaged: user rep leaves an operation uncommitted on the bug of ordinal e (sometimes after a committed edit of his own,
+	// so that the pull has to write a merge commit), the other user edits the bug of the same ordinal and publishes it, rep pulls
+	// WITHOUT committing first, and later commits whatever is staged: the update arrives for a bug that is loaded with staged
+	// operations, and the next commit made through the cache has to build on the merged history. When both users hold the same
+	// set of bugs (always at the start of a session, usually after an exchange) the two ordinals name the same bug.
+	pullOverStaged := func(rep, e int) {
+		if r.Chance(1, 3) {
+			in.Actions = append(in.Actions, edit(rep, e, false))
+		}
+		in.Actions = append(in.Actions, edit(rep, e, true))
+		if r.Chance(1, 4) {
+			in.Actions = append(in.Actions, edit(rep, e, true))
+		}
+		in.Actions = append(in.Actions, edit(1-rep, e, false), cAct{K: "push", R: 1 - rep, Rot: r.Intn(5)}, cAct{K: "pull", R: rep, Rot: r.Intn(5)})
+		switch r.Intn(4) {
+		case 0:
+			// the commit is left to the rest of the session
+		case 1:
+			in.Actions = append(in.Actions, edit(rep, e, false))
+		default:
+			in.Actions = append(in.Actions, cAct{K: "commit", R: rep, Rot: r.Intn(5)})
+		}
+		if r.Chance(1, 2) {
+			in.Actions = append(in.Actions, cAct{K: "push", R: rep, Rot: r.Intn(5)})
+		}
+	}
+	// one session in three that starts with a shared bug goes straight to that scenario
+	if len(in.Actions) == 3 && r.Chance(1, 3) {
+		pullOverStaged(r.Intn(2), 0)
+	}
 	for len(in.Actions) < n {
 		rep := r.Intn(2)
 		rot := r.Intn(5)
-		switch x := r.Intn(40); {
+		switch x := r.Intn(42); {
+		case x >= 40:
+			pullOverStaged(rep, r.Intn(5))
 		case x < 4:
 			in.Actions = append(in.Actions, newBug(rep))
 		case x < 16:
